@@ -594,8 +594,11 @@ func (w *vfWorld) do(h http.Handler, req *http.Request) *vfResp {
 	w.logs = w.logs[:0]
 	rec := httptest.NewRecorder()
 	h.ServeHTTP(rec, req)
-	res := &vfResp{Code: rec.Code, Header: rec.Header(), Body: rec.Body.Bytes(), Panic: w.lastPanic, PanicStack: w.lastPanicStack}
-	res.Cookies = (&http.Response{Header: rec.Header()}).Cookies()
+	// the headers as they went on the wire: the snapshot taken at the first write,
+	// not the live map a handler may still change afterwards (to no effect)
+	hdr := rec.Result().Header
+	res := &vfResp{Code: rec.Code, Header: hdr, Body: rec.Body.Bytes(), Panic: w.lastPanic, PanicStack: w.lastPanicStack}
+	res.Cookies = (&http.Response{Header: hdr}).Cookies()
 	if len(w.logs) > 0 {
 		res.LogUser = w.logs[len(w.logs)-1].Username
 		if res.LogUser == "-" {
